@@ -76,6 +76,10 @@ class Rule(Expression):
         hidden = state.hide_pairs
 
         if self.modifier & ATOMIC or self.name in ("COMMENT", "WHITESPACE"):
+            if self.modifier & (COMPOUND | NONATOMIC):
+                # The body of an implicit rule is atomic whatever its modifier,
+                # its own pair is as visible as the modifier makes it.
+                hidden = False
             with state.atomic_checkpoint():
                 state.atomic_depth += 1
                 state.hide_pairs = True
